@@ -183,7 +183,11 @@ func genC06() {
 		ast.Inspect(fd.Body, func(n ast.Node) bool {
 			if as, ok := n.(*ast.AssignStmt); ok {
 				t := c12Render(fset3, as)
-				if len(as.Lhs) > 0 && strings.Contains(c12Render(fset3, as.Lhs[0]), "checkpointInMem") {
+				lhs := ""
+				if len(as.Lhs) > 0 {
+					lhs = c12Render(fset3, as.Lhs[0])
+				}
+				if lhs == "ro.checkpointInMem" || strings.HasPrefix(lhs, "ro.checkpointInMem.") {
 					hand = append(hand, fd.Name.Name+": "+t)
 				}
 			}
